@@ -198,6 +198,9 @@ var c17Alphabet = [][]string{
 	{"straße@example.org", "STRASSE@example.org"}, // NOT equivalent under simple lower-casing; only idempotence is asserted
 	{"x@bücher.example", "x@xn--bcher-kva.example", "x@bücher.example"},
 	{"postmaster", "POSTMASTER"},
+	// A-labels that are not the first label, and CleanDomain staying inside the class
+	{"u@mail.тест.org", "u@mail.xn--e1aybc.org", "U@MAIL.XN--E1AYBC.ORG", "u@Mail.ТЕСТ.org"},
+	{"u@bücher.тест", "u@xn--bcher-kva.xn--e1aybc", "u@bücher.xn--e1aybc"},
 	{"σς@example.org"},
 	{"ｆｕｌｌ@example.org"},
 	{"i̇@example.org", "İ@example.org"},
@@ -225,8 +228,12 @@ func harness_C17_alphabet() {
 	if err != nil || cca != ca {
 		verifFail("C17.cleandomain-idempotent")
 	}
+	// cleaning the domain does not leave the equivalence class
+	if kc, _ := ForLookup(ca); kc != ka {
+		verifFail("C17.cleandomain-leaves-class")
+	}
 	kb, _ := ForLookup(b)
-	if g != 3 && g != 8 {
+	if g != 3 && g != 10 {
 		if ka != kb {
 			verifFail("C17.variants-one-key")
 		}
